@@ -290,7 +290,8 @@ def c07(tier, seed):
     else:
         tl, rl = [], []
         t3 = session("c07-latepsk", PskMode="only", LatePsk=True, FaultBudget=1, FaultKinds=["wbuf", "routbuf", "ralt"],
-                     PubLens=[32], InitPads=[False], Variants=["tr"], TrafficMode="short")
+                     PubLens=[32], InitPads=[False], Variants=["tr"], TrafficMode="short",
+                     PatSet=["N", "X", "NN", "NK", "XX", "IK", "KK", "X1X1", "XK1", "K1K1", "IX", "NX1", "I1K1", "KX"])
         rl.append(replay("C07", t3, seed, 1, threads=14))
         tl.append(t3)
         for i, grp in enumerate([BASE[:12], BASE[12:24], BASE[24:]]):
@@ -331,7 +332,8 @@ def c06(tier, seed):
         t1 = session("c06-faults", FaultBudget=1, FaultKinds=kinds, PskMode="single", InitPads=[False],
                      FixedEs=[True, False], TrafficMode="short")
         t2 = session("c06-latepsk", PskMode="only", LatePsk=True, FaultBudget=1, FaultKinds=["wbuf", "wmax", "routbuf"],
-                     PubLens=[32], InitPads=[False], Variants=["tr"], TrafficMode="short")
+                     PubLens=[32], InitPads=[False], Variants=["tr"], TrafficMode="short",
+                     PatSet=["N", "X", "NN", "NK", "XX", "IK", "KK", "X1X1", "XK1", "K1K1", "IX", "NX1", "I1K1", "KX"])
     r1 = replay("C06", t1, seed, 1, threads=14)
     r2 = replay("C06", t2, seed, 1, threads=14)
     t3 = session("c06-faults-p256", FaultBudget=1, FaultKinds=["wbuf", "wmax"], PubLens=[65], InitPads=[False], Variants=["tr"],
